@@ -148,3 +148,34 @@ pub(crate) fn snapshot(s: &crate::request::BaseSettings) -> SettingsSnapshot {
         headers: s.headers.iter().map(|(n, v)| (n.as_str().to_owned(), v.as_bytes().to_vec())).collect(),
     }
 }
+
+thread_local! {
+    static RESOLVER: RefCell<Vec<(String, Vec<std::net::SocketAddr>)>> = const { RefCell::new(Vec::new()) };
+}
+
+/// Make `happy::connect` use `addrs` instead of DNS for `host` on the current thread.
+pub fn set_resolver_override(host: &str, addrs: Vec<std::net::SocketAddr>) {
+    RESOLVER.with(|r| {
+        let mut r = r.borrow_mut();
+        r.retain(|(h, _)| h != host);
+        r.push((host.to_owned(), addrs));
+    });
+}
+
+/// Remove every resolver override of the current thread.
+pub fn clear_resolver_overrides() {
+    RESOLVER.with(|r| r.borrow_mut().clear());
+}
+
+pub(crate) fn has_resolver_override(host: &str) -> bool {
+    RESOLVER.with(|r| r.borrow().iter().any(|(h, _)| h == host))
+}
+
+pub(crate) fn resolver_override(host: &str) -> Vec<std::net::SocketAddr> {
+    RESOLVER.with(|r| r.borrow().iter().find(|(h, _)| h == host).map(|(_, a)| a.clone()).unwrap_or_default())
+}
+
+/// The address ordering used by the connection race (`happy::intertwine`): first list = IPv6.
+pub fn intertwine<T>(v6: Vec<T>, v4: Vec<T>) -> Vec<T> {
+    crate::happy::intertwine_vecs(v6, v4)
+}
